@@ -32,14 +32,14 @@ type Span struct {
 
 func NewTracer(log *connsim.Log) *Tracer { return &Tracer{Log: log} }
 
-func (t *Tracer) SetPackageName(string)  {}
-func (t *Tracer) SetServiceName(string)  {}
-func (t *Tracer) SetEndpoint(string)     {}
-func (t *Tracer) PackageName() string    { return "verif" }
-func (t *Tracer) ServiceName() string    { return "verif" }
-func (t *Tracer) Endpoint() string       { return "" }
-func (t *Tracer) Start() error           { return nil }
-func (t *Tracer) Stop() error            { return nil }
+func (t *Tracer) SetPackageName(string) {}
+func (t *Tracer) SetServiceName(string) {}
+func (t *Tracer) SetEndpoint(string)    {}
+func (t *Tracer) PackageName() string   { return "verif" }
+func (t *Tracer) ServiceName() string   { return "verif" }
+func (t *Tracer) Endpoint() string      { return "" }
+func (t *Tracer) Start() error          { return nil }
+func (t *Tracer) Stop() error           { return nil }
 
 func (t *Tracer) newSpan(name string, parent int) *Span {
 	t.mu.Lock()
